@@ -397,6 +397,10 @@ pub fn defined(m: &Model, ctx: &mut Ctx, rule: &str) {
     let hook = |_: &Evaluator, name: &str, a: &[Val]| -> Option<Result<Val, String>> {
         match name {
             ".inner_name" => Some(Ok(Val::Sym("INNER".into()))),
+            ".int_type" => Some(Ok(Val::Sym("INT".into()))),
+            // the element's constraint is opaque: no range annotation is derived from it
+            ".per_visible" => Some(Ok(Val::Bool(false))),
+            ".format_range_annotations" | ".format_alphabet_annotations" => Some(Ok(Val::Ctor("Ok".into(), vec![Val::Sym("".into())], BTreeMap::new()))),
             ".to_rust_qualified_type" => Some(Ok(Val::Sym("REF".into()))),
             ".constraints" | ".constraints_mut" => Some(Ok(match a.first() {
                 Some(Val::Ctor(_, p, f)) => f.get("constraints").cloned().or_else(|| p.first().and_then(|x| match x { Val::Ctor(_, _, f2) => f2.get("constraints").cloned(), _ => None })).unwrap_or(Val::List(vec![])),
@@ -425,6 +429,13 @@ pub fn defined(m: &Model, ctx: &mut Ctx, rule: &str) {
     for k in ["Sequence", "Set", "Choice", "Enumerated", "Boolean", "OctetString"] {
         shapes.push((k.to_string(), leaf(k)));
     }
+    {
+        // an element with a constraint of its own: the list is hoisted although the element is a builtin type
+        let mut f = BTreeMap::new();
+        f.insert("constraints".to_string(), Val::List(vec![Val::Opaque("constraint".into())]));
+        f.insert("distinguished_values".to_string(), Val::none());
+        shapes.push(("constrained INTEGER".to_string(), Val::Ctor("Integer".into(), vec![Val::Ctor("Integer".into(), vec![], f)], BTreeMap::new())));
+    }
     let mut e = BTreeMap::new();
     e.insert("identifier".to_string(), Val::Str("Other".into()));
     e.insert("module".to_string(), Val::none());
@@ -442,6 +453,9 @@ pub fn defined(m: &Model, ctx: &mut Ctx, rule: &str) {
     let p_ct: Vec<String> = ct.sig.inputs.iter().filter_map(|a| match a { syn::FnArg::Typed(t) => Some(tok(&t.pat)), _ => None }).collect();
     let mut n = 0;
     for (name, v) in &shapes {
+        if name == "constrained INTEGER" {
+            continue; // only meant as an element type
+        }
         n += 1;
         ctx.oblige(rule, name, name.contains(" OF "));
         let mut e1 = Env::new();
@@ -451,6 +465,29 @@ pub fn defined(m: &Model, ctx: &mut Ctx, rule: &str) {
             Ok(o) => { ctx.fail_closed(rule, &format!("[needs_unnesting {}]: {}", name, o.show())); continue }
             Err(e) => { ctx.fail_closed(rule, &format!("[needs_unnesting {}]: {}", name, e)); continue }
         };
+        // a hoisted component (needs_unnesting) is declared with its `<Parent><Field>` inner type; the function generated for its
+        // DEFAULT is declared with type_to_tokens(component type) — where that succeeds with a structural type the two differ
+        if hoisted && name.contains(" OF ") {
+            if let Some(tt) = m.fns.iter().find(|f| f.name == "type_to_tokens" && f.self_ty.as_deref() == Some("Rasn")) {
+                let p_tt: Vec<String> = tt.sig.inputs.iter().filter_map(|a| match a { syn::FnArg::Typed(t) => Some(tok(&t.pat)), _ => None }).collect();
+                let mut e3 = Env::new();
+                e3.insert("self".into(), Val::ctor("Rasn"));
+                e3.insert(p_tt.first().cloned().unwrap_or("ty".into()), v.clone());
+                if let Ok(Val::Ctor(ok, p, _)) = ev.eval_fn_body(&tt.block, &mut e3) {
+                    if ok == "Ok" {
+                        let helper = p.first().map(|x| x.show()).unwrap_or_default();
+                        ctx.oblige(rule, &format!("default-helper-type:{}", name), true);
+                        if !helper.contains("INNER") {
+                            ctx.violate(rule, "default-helper-type-of-hoisted-member", &tt.file, tt.line,
+                                &format!("a component of type `{}` is hoisted (declared with its `<Parent><Field>` inner type), but the function generated for its DEFAULT is declared `-> {}` (type_to_tokens): `S ::= SEQUENCE {{ n SET OF INTEGER (0..9) DEFAULT {{ 7, 8 }} }}` emits `pub n: SN` with `fn s_n_default() -> SetOf<u8>` (E0308)", name, helper));
+                        }
+                    }
+                }
+            }
+        }
+        if name.contains("constrained INTEGER") {
+            continue; // the rendering of a constrained element is C04/C06's business
+        }
         let mut e2 = Env::new();
         e2.insert("self".into(), Val::ctor("Rasn"));
         for (i, p) in p_ct.iter().enumerate() {
